@@ -261,6 +261,15 @@ impl<F: Float, R: Rng + Clone, DA: Data<Elem = F>, T, D: Distance<F>>
                 centroids = new_centroids;
                 n_iter += 1;
                 if distance < self.tolerance() || n_iter == self.max_n_iterations() {
+                    // assign once more, so that memberships and distances (hence the reported
+                    // inertia and cluster counts) describe the centroids that are returned
+                    update_memberships_and_dists(
+                        self.dist_fn(),
+                        &centroids,
+                        &observations,
+                        &mut memberships,
+                        &mut dists,
+                    );
                     break dists.sum();
                 }
             };
